@@ -242,7 +242,14 @@ class SimulatorBase(
         assert step_result is not None
 
         general_ops = list(general_suffix.all_operations())
-        if all(isinstance(op.gate, ops.MeasurementGate) for op in general_ops):
+        # Sampling all remaining measurements from one final state leaves out the noise that follows
+        # a measurement on its qubits: with a noise model that is only right when no qubit is
+        # measured a second time.
+        measured_qubits = [q for op in general_ops for q in op.qubits]
+        sample_at_end = self.noise == devices.NO_NOISE or len(set(measured_qubits)) == len(
+            measured_qubits
+        )
+        if sample_at_end and all(isinstance(op.gate, ops.MeasurementGate) for op in general_ops):
             for step_result in self._core_iterator(
                 circuit=general_suffix, sim_state=sim_state, all_measurements_are_terminal=True
             ):
